@@ -351,8 +351,12 @@ def gen_dircgrow(rng, nops=None):
         new = (target[:3] + b"y" * 30)[:30]
         if nlen < 30: ops.append(f"rename 0 0 {hx(target)} {hx(new)}"); names[names.index(target)] = new
         else: ops.append(f"comment 0 0 {hx(target)} {hx(b'd' * 79)}")
-    if rng.random() < 0.7: ops += ["unmount 0 0", "mount 0 0 0"] + (["usedirc 1"] if rng.random() < 0.5 else [])
-    ops += [f"chdir 0 0 {hx(b'Q')}", f"open 1 0 0 {hx(b'victim')} 2", "write 1 700 5", "close 1", "toroot 0 0",
+    if rng.random() < 0.7: ops += ["unmount 0 0", "mount 0 0 0", "free 0 0"] + (["usedirc 1"] if rng.random() < 0.5 else [])
+    # a write handle is opened in Q and closed after the current directory has moved on: the flush has to update the
+    # cache of the file's OWN parent
+    ops += [f"chdir 0 0 {hx(b'Q')}", f"open 1 0 0 {hx(b'victim')} 2", "write 1 700 5"] + (["toroot 0 0", "close 1"] if rng.random() < 0.5 else ["close 1", "toroot 0 0"]) + [
+            f"chdir 0 0 {hx(b'Q')}", f"open 3 0 0 {hx(b'late')} 2", "write 3 1000 8", "toroot 0 0", "flush 3", f"mkdir 0 0 {hx(b'R')}", f"chdir 0 0 {hx(b'R')}", "close 3", "toroot 0 0",
+            "usedirc 1", "list 0 0 1", "usedirc 0", "list 0 0 1",
             f"open 1 0 0 {hx(b'other')} 2", "write 1 10 6", "close 1", f"mkdir 0 0 {hx(b'other2')}", "list 0 0 1", "free 0 0",
             f"chdir 0 0 {hx(b'Q')}", f"open 2 0 0 {hx(b'victim')} 1", "read 2 5000", "close 2", "toroot 0 0"]
     for nm in names[:2]: ops += [f"open 2 0 0 {hx(nm)} 1", "read 2 5000", "close 2"]
@@ -822,6 +826,35 @@ def gen_rdb(rng):
     ops += ["closedev 0", "opendev 0 1"]
     for j in range(len(parts)): ops += [f"mount 0 {j} 1", f"free 0 {j}", f"list 0 {j} 1", f"unmount 0 {j}"]
     ops += ["closedev 0"]
+    return ops
+
+def gen_rdbfull(rng, nops=None):
+    """exhaustion on a partition that does NOT start at block 0: a small second (or third) partition of a partitioned disk is
+    filled to the last block with earlier files and a directory present, every allocation site is hit on the full
+    volume, space is released and refilled; the neighbouring partition is looked at afterwards"""
+    heads, secs = rng.choice([(1, 32), (2, 16), (4, 8)])
+    cylb = heads * secs
+    # the first partition is longer than one bitmap page (4064 blocks) in half of the cases: block numbers of the later
+    # partitions, taken as volume-relative by mistake, then fall outside their bitmap
+    n0 = rng.randint(4200 // cylb + 1, 4200 // cylb + 20) if rng.random() < 0.5 else rng.randint(10, 30)
+    n1 = rng.randint(18, 40); n2 = rng.randint(0, 12)
+    parts = [(2, n0, b"first", rng.randrange(8)), (2 + n0, n1, b"second", rng.randrange(8))]
+    if n2 >= 6: parts.append((2 + n0 + n1, n2, b"third", rng.randrange(8)))
+    cyl = max(2 + n0 + n1 + max(n2, 0) + 2, 3600 // cylb + 2)      # smaller devices are taken for floppies
+    k = rng.choice([1, 1, len(parts) - 1])
+    dt = parts[k][3]; dbs = 512 if dt & 1 else 488
+    nblk = parts[k][1] * cylb
+    ops = [f"newdev 0 {cyl} {heads} {secs}", "clock 2016 6 7 8 9 10",
+           "mkhd 0 %d " % len(parts) + " ".join(f"{s} {l} {hx(n)} {t}" for s, l, n, t in parts), "closedev 0", "opendev 0 0",
+           f"mount 0 {k} 0", f"open 1 0 {k} {hx(b'keep')} 2", "write 1 3000 3", "close 1", f"mkdir 0 {k} {hx(b'dd')}", f"free 0 {k}",
+           f"open 1 0 {k} {hx(b'big')} 2", f"write 1 {(nblk + 50) * dbs} 5", "stat 1", "close 1", f"free 0 {k}",
+           f"mkdir 0 {k} {hx(b'nodir')}", f"open 2 0 {k} {hx(b'nofile')} 2", "write 2 10 1", "close 2",
+           f"open 2 0 {k} {hx(b'keep')} 3", "seek 2 3000", "write 2 2000 4", "close 2", f"free 0 {k}", f"list 0 {k} 1",
+           f"open 3 0 {k} {hx(b'keep')} 1", "read 3 10000", "close 3", f"open 3 0 {k} {hx(b'big')} 1", "read 3 1000", "close 3",
+           f"remove 0 {k} {hx(b'big')}", f"free 0 {k}", f"open 1 0 {k} {hx(b'again')} 2", f"write 1 {(nblk + 50) * dbs} 6", "stat 1", "close 1",
+           f"free 0 {k}", f"unmount 0 {k}"]
+    j = (k + 1) % len(parts)
+    ops += [f"mount 0 {j} 0", f"list 0 {j} 1", f"free 0 {j}", f"mkdir 0 {j} {hx(b'x')}", f"unmount 0 {j}", "closedev 0"]
     return ops
 
 def gen_geom(rng, size=None, dostype=None):
